@@ -17,7 +17,7 @@ func runC14(c *Ctx) {
 		"(2-4 nodes, 3-8 holder pids with two incarnations, 4-11 targets of the six dynamic types) -> every answer compared with Model.TM; " +
 		"non-trivial = the sequence contains at least one Cleanup* operation; distinct by the op list"
 	if os.Getenv("C14_DEBUG") == "" {
-		tmK2(c, c.N(1500, 20000), c.N(55, 80))
+		tmK2(c, c.N(1500, 30000), c.N(55, 90))
 	}
 	for _, f := range c14Parts {
 		f(c)
